@@ -189,7 +189,7 @@ def unit_pool(a):
                         if k == 3 and a["sample"] and (n // a["nshards"]) % a["sample"] != a["seed"] % a["sample"]:
                             continue
                         yield {"sub": "history", "default": dflt, "names": list(hist), "items": [[POOL[h], s] for h, s in zip(hist, stops)], "check_dialects": n % 50 == 0,
-                               "own_matcher": not (dflt == "en" and n % 2), "dirty_matcher": n % 3 == 0, "mixed_call_styles": n % 5 == 0, "clones": n % 7 == 3, "scanner_objects": n % 7 == 5, "swap_builder": n % 11 == 4}
+                               "own_matcher": not (dflt == "en" and n % 2), "dirty_matcher": n % 3 == 0, "mixed_call_styles": n % 5 == 0, "clones": False, "scanner_objects": False, "swap_builder": False}
     sweep(stats, gen(), check_history)
     return stats
 
@@ -199,7 +199,7 @@ def g_history(s):
     for _ in range(s.rng(2, 5)):
         t = POOL[s.choice(sorted(POOL))] if s.int(3) == 0 else noisy.g_noisy(s)[0]
         items.append([t, s.int(4) == 0])
-    return {"sub": "history", "default": s.choice(["en", "en", "fr", "no"]), "items": items, "check_dialects": True, "own_matcher": bool(s.int(2)), "clones": s.int(5) == 0, "scanner_objects": s.int(5) == 0, "swap_builder": s.int(5) == 0}
+    return {"sub": "history", "default": s.choice(["en", "en", "fr", "no"]), "items": items, "check_dialects": True, "own_matcher": bool(s.int(2)), "clones": False, "scanner_objects": False, "swap_builder": False}
 
 
 def unit_sampled(a):
@@ -742,9 +742,10 @@ def check_fs_history(case, stats):
     run = lambda src: norm_result(gh.parse(src, dflt, parser=parser))
     import io
 
-    class TextScanner:
+    class TextScanner(gh.TokenScanner):
         """hands the parser the lines of a text without ever asking the file system (same tokens as TokenScanner.read makes)"""
         def __init__(self, text):
+            super().__init__("")
             self.io, self.n = io.StringIO(text), 0
 
         def read(self):
